@@ -78,7 +78,8 @@ impl CompilerTrait for Rec {
         let fee_in = fee_in_of(t);
         let pass = self.log.len();
         self.overlaps.extend(block_overlaps(t).into_iter().map(|x| (pass, x)));
-        let r = self.inner.compile(t);
+        // through the trait, as resolve_tx reaches the compiler (an inherent method of the same name would hide the trait's)
+        let r = <tx3_cardano::Compiler as CompilerTrait>::compile(&mut self.inner, t);
         match &r {
             Ok(c) => {
                 let n = self.payload_ids.len() as u64;
@@ -96,11 +97,11 @@ impl CompilerTrait for Rec {
     }
 
     fn reduce_op(&self, op: Self::CompilerOp) -> Result<Self::Expression, tx3_tir::reduce::Error> {
-        self.inner.reduce_op(op)
+        <tx3_cardano::Compiler as CompilerTrait>::reduce_op(&self.inner, op)
     }
 
     fn reset(&mut self) {
-        self.inner.reset()
+        <tx3_cardano::Compiler as CompilerTrait>::reset(&mut self.inner)
     }
 }
 
